@@ -18,6 +18,7 @@ DIMS = {
     "palettes": [1, 2],
     "names": [True, False],
     "zero_width": [False, True],
+    "empty_middle": [False, True],
 }
 K = {"quick": 1, "thorough": 2}
 FG = (0.2, 0.9, 0.4, 1.0)
@@ -29,6 +30,8 @@ def relevant(dev):
     if any(k in dev for k in ("space", "layout", "palettes", "names", "zero_width")) and not third:
         return False
     if "colr_version" in dev and "svg" not in kind:
+        return False
+    if "empty_middle" in dev and third:
         return False
     return True
 
@@ -49,7 +52,8 @@ def third_party(a):
 
     v = 0 if a["kind"] == "third_colr0" else 1
     fb = FontBuilder(1000, isTTF=True)
-    order = [".notdef"] + (["space"] if a["space"] else []) + ["A", "B", "mark", "L", "T"]
+    # a plain glyph between the colour glyphs: adding the SVG table then reorders the glyphs
+    order = [".notdef"] + (["space"] if a["space"] else []) + ["A", "mark", "B", "L", "T"]
     fb.setupGlyphOrder(order)
     cm = {0x41: "A", 0x42: "B", 0x301: "mark"}
     if a["space"]:
@@ -93,7 +97,7 @@ table GDEF { GlyphClassDef [A B], , [mark], ; } GDEF;""")
     return b.getvalue()
 
 
-def nano_font(kind, solid_only=False):
+def nano_font(kind, solid_only=False, empty_middle=False):
     from vmc.core import lattice as L
     from vmc.drive import inproc
     from vmc.gen import scenes
@@ -107,6 +111,12 @@ def nano_font(kind, solid_only=False):
         c03._solidify(glyphs)
     else:
         glyphs, over = scenes.mk(L.full(scenes.DIMS, {"place": "r30", "copy_paint": "rad_focal_fr", "seqlen": 2}))
+    if empty_middle:
+        # three sources, the middle one paints nothing: colour glyphs are then not contiguous in glyph order
+        from vmc.oracles.scene import Glyph
+
+        g3, _ = scenes.mk(L.full(scenes.DIMS, {"nglyphs": 3, "place": "r30"}))
+        glyphs = [g3[0], Glyph(g3[1].cps, g3[1].vb, []), g3[2]]
     over["color_format"] = fmt
     raw = fmt.startswith("untouched")
     cfg, font, data = inproc.build_direct([(g.cps, sc.raw_svg(g) if raw else g.svg()) for g in glyphs], over)
@@ -189,7 +199,7 @@ def execute(dev):
     inproc.init()
     dev = {k: v for k, v in dev.items() if k != "_"}
     a = lattice.full(DIMS, dev)
-    data = third_party(a) if a["kind"].startswith("third") else nano_font(a["kind"], solid_only="svg" in a["kind"] and a["colr_version"] == 0)
+    data = third_party(a) if a["kind"].startswith("third") else nano_font(a["kind"], solid_only="svg" in a["kind"] and a["colr_version"] == 0, empty_middle=a["empty_middle"])
     w = cli.mkscratch("c12")
     try:
         r, out = run_mc(w, data, a, True)
@@ -316,7 +326,8 @@ def run(report, tier, only=None):
     pool.nproc = lambda: 6  # each maximum_color run is itself a parallel ninja build
     try:
         extra = [{"kind": "nano_picosvg", "colr_version": 0}, {"kind": "nano_untouchedsvg", "colr_version": 0},
-                 {"kind": "nano_colr1", "bitmaps": True}, {"kind": "nano_picosvg", "bitmaps": True}, {"kind": "nano_colr1", "keep": False}]
+                 {"kind": "nano_colr1", "bitmaps": True}, {"kind": "nano_picosvg", "bitmaps": True}, {"kind": "nano_colr1", "keep": False},
+                 {"kind": "nano_picosvg", "bitmaps": True, "empty_middle": True}, {"kind": "nano_colr1", "bitmaps": True, "empty_middle": True}]
         lattice.explore(report, DIMS, k, execute, relevant=relevant, timeout=1200, extra_states=extra)
     finally:
         pool.nproc = old
